@@ -95,6 +95,7 @@ def harness_table(crate_dir):
                 "asserts": meta.get("asserts", ""),
                 "cap": int(meta["cap"]) if meta.get("cap", "").isdigit() else None,
                 "panics": meta.get("panics"),
+                "stubs": meta.get("stubs", ""),
             }
             if not h["functions"] or not h["asserts"]:
                 raise SystemExit("kani_driver: harness %s has no `/// K:` metadata (fns=, asserts=)" % name)
@@ -231,7 +232,7 @@ class Watchdog(threading.Thread):
 # running and parsing
 # ------------------------------------------------------------------------------------------------
 def _run_kani(crate_dir, target_dir, harnesses, timeout_s, jobs, logfile, log, extra=()):
-    cmd = ["cargo", "kani", "--target-dir", target_dir, "--output-format", "terse", "-Z", "unstable-options",
+    cmd = ["cargo", "kani", "--target-dir", target_dir, "--output-format", "terse", "-Z", "unstable-options", "-Z", "stubbing",
            "--harness-timeout", "%ds" % timeout_s, "--exact", "--no-assertion-reach-checks"]
     if jobs > 1:
         cmd += ["-j", str(jobs)]
@@ -501,7 +502,7 @@ def run(prop, tier, seed, known, log, only=None):
         status, bad, note = classify(h, r)
         entry = {"name": h["name"], "status": status, "time_s": round(r["time_s"], 2) if r and r["time_s"] is not None else None,
                  "unwind": h["unwind"], "checks": r["checks"] if r else 0, "covers": "%d/%d" % (r["covers_sat"], r["covers"]) if r else "0/0",
-                 "functions": h["functions"], "inst": h["inst"], "bound": h["bound"], "tier": h["tier"]}
+                 "functions": h["functions"], "inst": h["inst"], "bound": h["bound"], "tier": h["tier"], "stubs": h.get("stubs", "")}
         if note:
             entry["note"] = note
         if r and r["time_s"]:
